@@ -65,6 +65,7 @@ GS(char_3x2, 6)
 GS(intp_2x2, 4 * sizeof(PtrT))
 using VSG = std::conditional_t<sizeof(PtrT) == 2, VS_lp32_p16, std::conditional_t<sizeof(PtrT) == 4, VS_lp32_p32, VS_lp32_p64>>;
 GS(VS, sizeof(VSG))
+GS(VT, sizeof(VT_lp32))
 #undef GS
 
 static bool g_thorough = false;
